@@ -510,3 +510,245 @@ theorem encode_last (m : Bytes) (h : m.getLast? ≠ some 32) :
       simp [List.getLast?_append, isWS]; omega
 
 end ConfModel.WireChecks
+
+namespace ConfModel.WireChecks
+open ConfModel.WireChecksSpec
+open ConfModel.ServerTimeout (Bytes parseInt)
+
+/-! ### the validator accepts exactly the grpc-message grammar -/
+
+theorem encodingOK_cons (c : UInt8) (rest : Bytes) :
+    encodingOK (c :: rest) =
+      if c.toNat == 37 then
+        (match rest with
+          | h1 :: h2 :: rest' => isHex h1 && isHex h2 && encodingOK rest'
+          | _ => false)
+      else !shouldEscape c && encodingOK rest := by
+  rw [encodingOK.eq_def]
+  rfl
+
+theorem validate_iff_len : ∀ (n : Nat) (m : Bytes), m.length ≤ n →
+    (validateMessage m 0 = [] ↔ encodingOK m = true) := by
+  intro n
+  induction n with
+  | zero =>
+    intro m hm
+    have : m = [] := List.length_eq_zero_iff.1 (by omega)
+    subst this; simp [validateMessage, encodingOK]
+  | succ n ih =>
+    intro m hm
+    cases m with
+    | nil => simp [validateMessage, encodingOK]
+    | cons c rest =>
+      rw [validate_cons, encodingOK_cons]
+      by_cases h37 : (c.toNat == 37) = true
+      · simp only [h37, if_true, Nat.lt_irrefl, gt_iff_lt, if_false]
+        cases rest with
+        | nil => simp [validateMessage]
+        | cons h1 r1 =>
+          rw [validate_cons]
+          cases r1 with
+          | nil =>
+            by_cases hh : isHex h1 = true <;> simp [hh, validateMessage]
+          | cons h2 r2 =>
+            rw [validate_cons]
+            have := ih r2 (by simp at hm; omega)
+            by_cases a : isHex h1 = true <;> by_cases b : isHex h2 = true <;> simp [a, b, this]
+      · have h37' : (c.toNat == 37) = false := by simpa using h37
+        simp only [h37', Bool.false_eq_true, if_false, Nat.lt_irrefl, gt_iff_lt]
+        have := ih rest (by simp at hm; omega)
+        by_cases hs : shouldEscape c = true <;> simp [hs, this]
+
+theorem validate_iff_grammar (m : Bytes) : validateMessage m 0 = [] ↔ encodingOK m = true :=
+  validate_iff_len m.length m (Nat.le_refl _)
+
+theorem validate_mem (m : Bytes) : ∀ e f, f ∈ validateMessage m e →
+    f = .hexExpected ∨ f = .unescaped ∨ f = .incomplete := by
+  intro e f _
+  cases f <;> simp
+
+end ConfModel.WireChecks
+
+namespace ConfModel.WireChecks
+open ConfModel.WireChecksSpec
+open ConfModel.ServerTimeout (Bytes parseInt)
+
+/-! ### the status trio: the model meets the specification -/
+
+theorem status_clean_core (dec : Bytes → DetailsDec) (st ms ds : List Bytes)
+    (h : statusOKCore dec st ms ds = true) : checkStatusCore dec st ms ds = [] := by
+  rcases st with _ | ⟨s, _ | ⟨s2, st'⟩⟩
+  · simp [statusOKCore] at h
+  · cases hp : parseInt 64 s with
+    | none => simp [statusOKCore, hp] at h
+    | some code =>
+      simp only [statusOKCore, hp, Bool.and_eq_true, decide_eq_true_eq] at h
+      obtain ⟨⟨⟨h0, h16⟩, hms⟩, hds⟩ := h
+      have hr : ¬ (code < 0 ∨ code > 16) := by omega
+      have hw : wrap32 code = code := by simp only [wrap32]; omega
+      rcases ms with _ | ⟨m, _ | ⟨m2, ms'⟩⟩
+      · -- no grpc-message
+        rcases ds with _ | ⟨d, _ | ⟨d2, ds'⟩⟩
+        · simp [checkStatusCore, statusPart, messagePart, detailsPart, hp, hr]
+        · cases hd : dec d with
+          | invalid => simp [hd] at hds
+          | decoded padded stp =>
+            cases padded with
+            | true => simp [hd] at hds
+            | false =>
+              cases stp with
+              | none => simp [hd] at hds
+              | some t =>
+                obtain ⟨c, msg, hdet⟩ := t
+                simp only [hd, Bool.and_eq_true, beq_iff_eq, Bool.not_eq_true', Bool.and_eq_false_iff,
+                  Bool.and_true] at hds
+                obtain ⟨rfl, h2⟩ := hds
+                simp only [checkStatusCore, statusPart, messagePart, detailsPart, hp, hd, hw]
+                rcases h2 with h2 | h2 <;> simp [hr, h2, hw]
+        · simp at hds
+      · -- one grpc-message
+        simp only [Bool.and_eq_true, Bool.or_eq_true, bne_iff_ne, ne_eq, List.isEmpty_iff] at hms
+        have hv := (validate_iff_grammar m).2 hms.1
+        have hok : (code == 0 && !m.isEmpty) = false := by
+          rcases hms.2 with h1 | h1
+          · simp [h1]
+          · simp [h1]
+        rcases ds with _ | ⟨d, _ | ⟨d2, ds'⟩⟩
+        · simp [checkStatusCore, statusPart, messagePart, detailsPart, hp, hr, hv, hok]
+        · cases hd : dec d with
+          | invalid => simp [hd] at hds
+          | decoded padded stp =>
+            cases padded with
+            | true => simp [hd] at hds
+            | false =>
+              cases stp with
+              | none => simp [hd] at hds
+              | some t =>
+                obtain ⟨c, msg, hdet⟩ := t
+                simp only [hd, Bool.and_eq_true, beq_iff_eq, Bool.not_eq_true', Bool.and_eq_false_iff] at hds
+                obtain ⟨⟨rfl, h2⟩, h3⟩ := hds
+                simp only [checkStatusCore, statusPart, messagePart, detailsPart, hp, hd, hw, h3]
+                rcases h2 with h2 | h2 <;> simp [hr, h2, hv, hok, hw]
+        · simp at hds
+      · simp at hms
+  · simp [statusOKCore] at h
+
+end ConfModel.WireChecks
+
+namespace ConfModel.WireChecks
+open ConfModel.WireChecksSpec
+open ConfModel.ServerTimeout (Bytes parseInt)
+
+theorem statusPart_code (st : List Bytes) :
+    (statusPart st).2 = (match st with | [s] => parseInt 64 s | _ => none) := by
+  rcases st with _ | ⟨s, _ | ⟨s2, st'⟩⟩
+  · rfl
+  · simp only [statusPart, List.length_singleton, Nat.lt_irrefl, gt_iff_lt, if_false]
+    cases parseInt 64 s <;> rfl
+  · simp [statusPart]
+
+theorem messagePart_msg (code : Option Int) (ms : List Bytes) :
+    (messagePart code ms).2 = ms.head?.bind percentDecode := by
+  cases ms <;> simp [messagePart]
+
+theorem status_flags (st : List Bytes) :
+    ∀ alts ∈ mustStatus st, ∃ f ∈ alts, f ∈ (statusPart st).1 := by
+  intro alts h
+  rcases st with _ | ⟨s, _ | ⟨s2, st'⟩⟩
+  · simp [mustStatus] at h; subst h; simp [statusPart]
+  · simp only [mustStatus, List.length_singleton, Nat.lt_irrefl, gt_iff_lt, if_false, List.isEmpty_cons,
+      Bool.false_eq_true, List.nil_append] at h
+    simp only [statusPart, List.length_singleton, Nat.lt_irrefl, gt_iff_lt, if_false]
+    cases hp : parseInt 64 s with
+    | none => simp [hp] at h; subst h; simp
+    | some c =>
+      simp only [hp] at h
+      by_cases hr : (c < 0 || c > 16) = true
+      · simp [hr] at h; subst h; simp [hr]
+      · simp [hr] at h
+  · simp [mustStatus] at h; subst h; simp [statusPart]
+
+theorem message_flags (code : Option Int) (ms : List Bytes) :
+    ∀ alts ∈ mustMessage ms, ∃ f ∈ alts, f ∈ (messagePart code ms).1 := by
+  intro alts h
+  simp only [mustMessage, List.mem_append] at h
+  rcases h with h | h
+  · by_cases hl : ms.length > 1
+    · simp [hl] at h; subst h
+      rcases ms with _ | ⟨m, ms'⟩
+      · simp at hl
+      · have : 0 < ms'.length := by simp at hl; omega
+        simp [messagePart, this]
+    · simp [hl] at h
+  · rcases ms with _ | ⟨m, ms'⟩
+    · simp at h
+    · simp only [List.head?_cons] at h
+      by_cases he : encodingOK m = true
+      · simp [he] at h
+      · have he' : encodingOK m = false := by simpa using he
+        simp [he'] at h; subst h
+        have hne : validateMessage m 0 ≠ [] := fun hv => he ((validate_iff_grammar m).1 hv)
+        obtain ⟨f, fs, hf⟩ : ∃ f fs, validateMessage m 0 = f :: fs := by
+          cases hv : validateMessage m 0 with
+          | nil => exact absurd hv hne
+          | cons f fs => exact ⟨f, fs, rfl⟩
+        refine ⟨.msg f, ?_, ?_⟩
+        · cases f <;> simp
+        · simp [messagePart, hf]
+
+theorem details_flags (dec : Bytes → DetailsDec) (code : Option Int) (msg : Option Bytes) (ds : List Bytes) :
+    ∀ alts ∈ mustDetails dec code msg ds, ∃ f ∈ alts, f ∈ detailsPart dec code msg ds := by
+  intro alts h
+  simp only [mustDetails, List.mem_append] at h
+  rcases h with h | h
+  · by_cases hl : ds.length > 1
+    · simp [hl] at h; subst h; simp [detailsPart, hl]
+    · simp [hl] at h
+  · rcases ds with _ | ⟨d, ds'⟩
+    · simp at h
+    · simp only [List.head?_cons] at h
+      simp only [detailsPart]
+      cases hd : dec d with
+      | invalid => simp [hd] at h; subst h; simp
+      | decoded padded stp =>
+        simp only [hd, List.mem_append] at h
+        rcases h with h | h
+        · cases padded <;> simp at h
+          subst h; simp
+        · cases stp with
+          | none => simp at h; subst h; simp
+          | some t =>
+            obtain ⟨c, m, hdet⟩ := t
+            simp only [List.mem_append] at h
+            rcases h with h | h
+            · cases code with
+              | none => simp at h
+              | some sc =>
+                by_cases hc : (c != wrap32 sc) = true
+                · simp [hc] at h; subst h; simp [hc]
+                · simp [hc] at h
+            · cases msg with
+              | none => simp at h
+              | some m' =>
+                by_cases hm : (m != m') = true
+                · simp [hm] at h; subst h; simp [hm]
+                · simp [hm] at h
+
+/-- every malformation class the specification names is reported by the model -/
+theorem status_flags_core (dec : Bytes → DetailsDec) (st ms ds : List Bytes) :
+    ∀ alts ∈ mustFlagStatusCore dec st ms ds, ∃ f ∈ alts, f ∈ checkStatusCore dec st ms ds := by
+  intro alts h
+  simp only [mustFlagStatusCore, List.mem_append] at h
+  simp only [checkStatusCore, List.mem_append]
+  rcases h with (h | h) | h
+  · obtain ⟨f, hf, hm⟩ := status_flags st alts h
+    exact ⟨f, hf, Or.inl (Or.inl hm)⟩
+  · obtain ⟨f, hf, hm⟩ := message_flags (statusPart st).2 ms alts h
+    exact ⟨f, hf, Or.inl (Or.inr hm)⟩
+  · have e1 := statusPart_code st
+    have e2 := messagePart_msg (statusPart st).2 ms
+    obtain ⟨f, hf, hm⟩ := details_flags dec (statusPart st).2 (messagePart (statusPart st).2 ms).2 ds alts
+      (by rw [e2, e1]; exact h)
+    exact ⟨f, hf, Or.inr hm⟩
+
+end ConfModel.WireChecks
